@@ -91,14 +91,14 @@ func init() {
 		ID:    "C14",
 		Level: "exploration",
 		Rule: "operation sequences of (hset h k v) (fresh v each time) and (hdel h k) over a universe of 10 key spellings (symbols a b, strings \"a\" \"b\", ints 1 2, the one-element array [1] (= key 1), char 'x', an int equal to (symnum a) and an int equal to the hash code of \"a\", i.e. unequal keys sharing a bucket): exhaustively all sequences of length <=3 (quick) / <=4 (thorough) over the 20 operations, all sequences of length <=4 / <=5 over a sub-universe, plus 500 / 20000 random sequences of length 30 observed after every step. " +
-			"After the last step (every prefix is itself an enumerated sequence) the monitor reads (len h), (keys h), (hpair h i) for every i, (hget h k) and (hget h k dflt) for every k of the universe, (str h), (json h), the range macro and the go-style for k, v := range h, and compares all of them with an ordered-map model (live keys once each in first-insertion order, latest values); (str h) and (json h) must also be exactly those of a hash built afresh from the model's content. Any error or panic text from an observation is a violation. non-trivial = distinct sequence containing a delete of a present key or an update of an existing key",
+			"After the last step (every prefix is itself an enumerated sequence) the monitor reads (len h), (keys h), (hpair h i) for every i, (hget h k) and (hget h k dflt) for every k of the universe, (str h), (json h), the range macro and the go-style for k, v := range h, and compares all of them with an ordered-map model (live keys once each in first-insertion order, latest values); (str h) and (json h) must also be exactly those of a hash built afresh from the model's content; the hash shown twice in one value prints and encodes twice; writing into the arrays that (keys h) and (hpair h i) return must not change the hash; copies (derefSet between records, decoding of an encoding, rebuilding through range) must not change when the source is changed afterwards. Any error or panic text from an observation is a violation. non-trivial = distinct sequence containing a delete of a present key or an update of an existing key",
 		Assumptions: []string{
 			"key identity follows the language: [k] is k; the universe contains no int equal to a char code and no float keys",
 			"(hpair h (len h)) may fail with any error; the JSON text is only checked for the order of the values it lists (well-formedness is C11's subject)",
 		},
 		NCases: func(c *core.Ctx) int {
 			a, _, b, _, r := c14Plan(c)
-			return a + b + r
+			return a + b + r + c14CopyCases
 		},
 		Exhaustive: func(c *core.Ctx) bool { return true },
 		Chunk:      3000,
@@ -109,7 +109,50 @@ func init() {
 
 var c14six = regexp.MustCompile(`\b\d{6}\b`)
 
+// copies: a record copied into another (derefSet / CloneFrom), a hash decoded from the encoding of another, a hash
+// rebuilt from (keys) and (hget): later deletions, insertions and updates on the source must not show in the copy
+const c14CopyCases = 8
+
+func c14Copy(c *core.Ctx, k int) *core.Result {
+	res := &core.Result{Nontrivial: true}
+	name := fmt.Sprintf("Rc%dx%d", k, c.Seed%100000)
+	setup := []string{
+		fmt.Sprintf("(struct %s [(field Name:string) (field Number:int64) (field Tag:string) (field Four:int64)]) (def s (%s Name:\"Rover\" Number:3 Tag:\"x\" Four:4)) (def d (%s Name:\"Other\")) (derefSet (& d) s)", name, name, name),
+		"(def s (hash a:1 b:2 c:3 d:4)) (def d (unjson (json s)))",
+		"(def s (hash a:1 b:2 c:3 d:4)) (def d (unmsgpack (msgpack s)))",
+		"(def s (hash a:1 b:2 c:3 d:4)) (def d (hash)) (range k v s (hset d k v))",
+	}[k%4]
+	change := []string{"(hdel s (first (keys s)))", "(hdel s (aget (keys s) 1))", "(hset s (aget (keys s) 1) 99)", "(hdel s (aget (keys s) 2)) (hset s zz: 5)"}[(k/4+k)%4]
+	text := setup + "\n" + change
+	res.Input, res.Hash = text, core.HashOf(text)
+	s := NewSutRun(true)
+	if o := s.Eval(setup+"\n", 0); o.Err != nil || o.Panic != "" {
+		res.Verdict, res.Key, res.Detail = core.Inconclusive, "copy-setup-fails", OutStr(o)
+		return res
+	}
+	view := func() string {
+		o := s.Eval("(list (str d) (str (keys d)) (len d) (str (hpair d 0)) (str (hpair d 1)) (raw2str (json d)))\n", 0)
+		res.Evals++
+		return OutStr(o)
+	}
+	before := view()
+	o := s.Eval(change+"\n", 0)
+	res.Evals++
+	res.Ev("copy_scenarios", 1)
+	if o.Panic != "" {
+		res.Violate("escaped-panic:"+o.Site, o.Panic, text)
+		return res
+	}
+	if after := view(); after != before {
+		res.Violate("view:copy-changed-by-its-source", fmt.Sprintf("after %s on the source, the copy shows %s; before it showed %s", change, core.Trunc(after, 400), core.Trunc(before, 400)), text)
+	}
+	return res
+}
+
 func c14Run(c *core.Ctx, i int) *core.Result {
+	if a, _, b, _, r := c14Plan(c); i >= a+b+r {
+		return c14Copy(c, i-(a+b+r))
+	}
 	keys := c14Universe()
 	full, fullLen, small, smallLen, _ := c14Plan(c)
 	var seq []c14op
@@ -308,6 +351,27 @@ func c14Observe(res *core.Result, s *SutRun, keys []c14key, order []string, vals
 		}
 		if a, b := ev("(raw2str (json h))"), ev("(raw2str (json hfresh))"); a != b {
 			return bad("json-differs-from-fresh-hash", fmt.Sprintf("(json h) is %s but a hash built afresh with the same content encodes as %s", core.Trunc(a, 300), core.Trunc(b, 300)))
+		}
+	}
+	// the hash shown twice in one value, and what the views hand out changed in place: neither may disturb the hash
+	{
+		one, oneJ := ev("(str h)"), ev("(raw2str (json h))")
+		inner := strings.TrimSuffix(strings.TrimPrefix(one, `"`), `"`) // ev shows the string value quoted
+		innerJ := strings.TrimSuffix(strings.TrimPrefix(oneJ, `"`), `"`)
+		if got := ev("(str [h h])"); got != `"[`+inner+" "+inner+`]"` {
+			return bad("str-of-shared-hash", fmt.Sprintf("(str [h h]) must be [%s %s], got %s", inner, inner, core.Trunc(got, 300)))
+		}
+		if got := ev("(raw2str (json [h h]))"); strings.HasPrefix(got, "ERR") || strings.HasPrefix(got, "PANIC") || strings.Count(got, innerJ) != 2 {
+			return bad("json-of-shared-hash", fmt.Sprintf("(json [h h]) must hold the encoding of h twice, got %s", core.Trunc(got, 300)))
+		}
+		if len(order) > 0 {
+			ev("(def ks9 (keys h)) (aset ks9 0 (quote zz9)) (def pr9 (hpair h 0)) (def kl9 (keys h)) (aset kl9 (- (len kl9) 1) 12345)")
+			if got := ev("(str h)"); got != one {
+				return bad("views-alias-the-hash", fmt.Sprintf("after writing into the arrays returned by (keys h), (str h) changed from %s to %s", core.Trunc(one, 200), core.Trunc(got, 200)))
+			}
+			if got := ev("(len (keys h))"); got != strconv.Itoa(len(order)) {
+				return bad("views-alias-the-hash", fmt.Sprintf("after writing into the arrays returned by (keys h), (keys h) has %s entries", got))
+			}
 		}
 	}
 	s.Trace = nil
